@@ -52,4 +52,9 @@ CHECKS = {
         "note": "Trusted: z3 (choices), asyncio on the virtual-time loop, zigpy's PriorityDynamicBoundedSemaphore, refs/ezspref.py frame builder. Assumption: callback frames never carry a pending sequence number. Bounds: 2-4 callers, three representative commands, sequence starts {0,1,253,254,255}.",
         "technique": SYMX,
     },
+    "C08": {
+        "text": "Real EZSP.frame_received and protocol handler per version with an optional pending command registered through the real command(); the incoming frame is a reference-encoded valid frame under solver-decided mutation parameters (truncation to every length, one substituted byte by position and boundary value, frame-ID substitution over the whole command table with the pending sequence number, unknown IDs, foreign sequence numbers) plus free short strings; an independent header parser and structural decoder judges whether the frame is a known, decodable frame of the version. Per path: nothing escapes the entry point, a pending call is completed only by a frame with its sequence number and its frame ID and then with exactly that frame's values, no callback fires for a frame that does not decode, a command issued afterwards completes.",
+        "note": "Trusted: z3 (choices), refs/ezspref.py (self-tested against every schema of every version), asyncio virtual loop. Frame-control bytes are not judged. Bounds: one mutation per frame, boundary values for substituted bytes, 12 base frames, 5 pending commands, free strings <= 1-2 bytes.",
+        "technique": SYMX,
+    },
 }
